@@ -741,8 +741,9 @@ fn lib_tree_chunked(dir: &session::FDir, chunk: usize, path: &str, depth: usize)
 }
 
 fn freedoms_strategy() -> impl Strategy<Value = Freedoms> {
-    (prop::collection::vec(prop::bool::weighted(0.6), 14..=14), prop::bool::weighted(0.3)).prop_map(|(b, stale)| Freedoms {
+    (prop::collection::vec(prop::bool::weighted(0.6), 14..=14), prop::bool::weighted(0.3), prop::bool::weighted(0.4)).prop_map(|(b, stale, ea)| Freedoms {
         stale_count: stale,
+        ea_handle: ea,
         fragmented: b[0],
         backwards: b[1],
         eoc_variants: b[2],
@@ -770,7 +771,7 @@ pub fn replay(v: &serde_json::Value) -> Result<Option<String>, String> {
 }
 
 pub fn run(tier: Tier, seed: u64) -> i32 {
-    let rule = "volumes built by imggen (independent of the library's writer) over 18 geometries (FAT12/16/32, sector 512..4096, 1-3 FATs, mirroring off with each active copy and garbage in inactive ones, root cluster != 2, non-zero FAT32 high nibbles, every end-of-chain value) and populated with named switches: fragmented / backwards chains, BAD clusters, deleted slots and runs, orphan long-name runs (wrong checksum, truncated, followed by a deleted entry), short-only entries with NT lowercase flags / 0x05 lead byte / OEM bytes, labels anywhere in the root, a stale FAT32 FS-info free count (0, half, one less, more than the table has), all RO/HID/SYS/ARCH combinations, arbitrary valid timestamps, multi-cluster directories, garbage after the end marker; read oracle = listings, names, short names, attributes, 3 timestamps, sizes, contents (random chunk sizes), label, id, width, free count, status flags equal the builder's ground truth (which refdec must confirm first) and no device write happens; modify oracle = one library mutation (create file/dir, remove, rename, truncate, overwrite, or filling the volume until NotEnoughSpace) then no new refdec finding, expected tree read back by refdec and a fresh mount, and every changed byte of the raw diff lies in the status byte, FS-info, FAT entries (low 28 bits) of clusters that were free or belong to the touched objects, free or own directory slots of the touched directories, timestamp fields of their own entries, or clusters that were free or belong to the touched file; non-trivial = image with >= 3 freedoms and a fragmented file; distinct by hash of the case";
+    let rule = "volumes built by imggen (independent of the library's writer) over 18 geometries (FAT12/16/32, sector 512..4096, 1-3 FATs, mirroring off with each active copy and garbage in inactive ones, root cluster != 2, non-zero FAT32 high nibbles, every end-of-chain value) and populated with named switches: fragmented / backwards chains, BAD clusters, deleted slots and runs, orphan long-name runs (wrong checksum, truncated, followed by a deleted entry), short-only entries with NT lowercase flags / 0x05 lead byte / OEM bytes, labels anywhere in the root, a stale FAT32 FS-info free count (0, half, one less, more than the table has), non-zero bytes 20..22 in FAT12/16 entries (extended-attribute handles), all RO/HID/SYS/ARCH combinations, arbitrary valid timestamps, multi-cluster directories, garbage after the end marker; read oracle = listings, names, short names, attributes, 3 timestamps, sizes, contents (random chunk sizes), label, id, width, free count, status flags equal the builder's ground truth (which refdec must confirm first) and no device write happens; modify oracle = one library mutation (create file/dir, remove, rename, truncate, overwrite, or filling the volume until NotEnoughSpace) then no new refdec finding, expected tree read back by refdec and a fresh mount, and every changed byte of the raw diff lies in the status byte, FS-info, FAT entries (low 28 bits) of clusters that were free or belong to the touched objects, free or own directory slots of the touched directories, timestamp fields of their own entries, or clusters that were free or belong to the touched file; non-trivial = image with >= 3 freedoms and a fragmented file; distinct by hash of the case";
     let mut rep = Report::new("C08", tier, seed, "exploration", rule);
     rep.assume("valid volumes only: C07/C17 own the invalid ones; the FS-info free count is exact or (freedom stale_count) a stale in-range value, which the specification allows");
     rep.assume("names containing OEM bytes >= 0x80 are listed (as U+FFFD) but not used for by-name lookups");
